@@ -170,6 +170,41 @@ def run(replay=None):
                              {"program": p.text(), "command": p.lines[cmd - 1], "detail": out[0]})
             if len(samples) < 3:
                 samples.append({"command": p.lines[cmd - 1], "answer": out[0]})
+    # ---- uniform-grid emission: the implementation's contours against Render/DCGrid2.v + Contours.v ----
+    ok_g, log_g = common.build_driver(**common.DRIVERS["gdriver"])
+    gprogs = []
+    for k in range(40 if quick else 800):
+        p = shape2d(rng, f"e{k}")
+        p.q = p.ncmd + 1
+        p.emit(f"contourgrid {p.root} {rng.choice([3, 4, 4, 5])} " + " ".join(f2h(v) for v in (-1.6, -1.6, 1.6, 1.6)) +
+               f" {f2h(p.slice)} {rng.choice([1, 4])}")
+        gprogs.append(p)
+    gout, _ = common.run_cases_sharded(exe_h, [p.text() for p in gprogs], shards=8, timeout=900, single_timeout=300)
+    G = parse_out(gout)
+    mcases, mexp = [], []
+    for p in gprogs:
+        l = [x for x in G.get((p.cid, p.q), []) if x.startswith("CG ")]
+        if not l:
+            continue
+        head, pts = l[0].split(" filled=")
+        f = dict(x.split("=", 1) for x in head.split()[1:])
+        if int(f["zero"]) or not pts.strip():
+            continue
+        mcases.append(f"case {p.cid}\ncontourgrid{pts}\nend\n")
+        mexp.append((p, int(f["segs"]), int(f["contours"]), int(f["open"]), l[0][:200]))
+    stats["grid_cases"] = len(mcases); stats["grid_equal"] = 0
+    if ok_g and mcases:
+        mout, _ = common.run_cases_sharded(os.path.join(common.BUILD, "ocaml", "gdriver"), mcases, timeout=1800, single_timeout=600)
+        M2 = parse_out(mout)
+        for p, segs, ncont, nopen, detail in mexp:
+            m = (M2.get((p.cid, 1)) or [""])[0]
+            mf = dict(x.split("=", 1) for x in m.split()[1:]) if m.startswith("GC ") else {}
+            if mf and int(mf["segs"]) == segs and int(mf["contours"]) == ncont and int(mf["open"]) == nopen:
+                stats["grid_equal"] += 1
+            elif mf:
+                corr_bad.append((p.text(), detail, m))
+    if not ok_g:
+        ck.violation("driver", "extracted grid model does not build", {"log": log_g[-3000:]}, no_input=True)
     if corr_bad:
         c, h, m = corr_bad[0]
         ck.violation("correspondence", f"model and implementation weld a segment soup differently ({len(corr_bad)} cases)",
@@ -182,7 +217,7 @@ def run(replay=None):
     stats["corr_mismatch"] = len(corr_bad)
     ck.coverage.update(stats)
     ck.coverage["evaluations"] = stats["soups"] + stats["renders"]
-    ck.coverage["traces_validated_against_impl"] = stats["soups_equal"]
+    ck.coverage["traces_validated_against_impl"] = stats["soups_equal"] + stats.get("grid_equal", 0)
     ck.coverage["samples"] = samples
     ck.coverage["rule"] = ("soups: 1..5 directed cycles of 1..40 vertices in shuffled order (75%), with open paths (15%) or with extra "
                            "branching segments (10%); renders: rotated circles / rectangles / CSG in 2D and slices of 3D solids, "
